@@ -662,9 +662,20 @@ PROBES = [
                                                                        s.add('@media print{x{top:0}}'), s.cssRules[1].selectorList.appendSelector('c')))),
     ('validation', lambda: cssutils.parseString('a{color:1px;colr:red;top:red;opacity:0.5;x-c12:1}')),
     ('variables', lambda: cssutils.parseString('@variables{c:red;d:1px}a{color:var(c);left:var(d);top:var(nope)}')),
+    # a sheet that imports the sheet an earlier (possibly failed) parse had as its parent: what is loaded does not depend on that parse
+    ('import-of-an-earlier-parent', lambda: _import_probe()),
     ('dom-edit-must-raise', lambda: _p_edit('a{color:red}', lambda s: setattr(s.cssRules[0], 'selectorText', 'a,,'))),
     ('parse-must-not-raise', lambda: cssutils.parseString('a{$;color:red;b:f(} }{ @import; @media screen and({} x{y:z}')),
 ]
+def _import_probe():
+    s = cssutils.CSSParser(fetcher=_f_ok).parseString('@import "x.css";@import "i.css" print;a{top:0}', href='http://e/z.css')
+    out = [s.cssText]
+    for r in s.cssRules:
+        if r.type == r.IMPORT_RULE:
+            out.append([r.href, r.hrefFound, None if r.styleSheet is None else r.styleSheet.cssText])
+    return out
+
+
 MUST_RAISE = {'dom-edit-must-raise'}
 MUST_RETURN = {'parse-must-not-raise'}
 
